@@ -410,6 +410,13 @@ class Server(utils.EventEmitter):
             logger.warning('CCCD value not 2 bytes long')
             return
 
+        # The write may be processed (asynchronously) after the disconnection event of
+        # its connection: there is nobody to subscribe anymore.
+        connection = bearer.connection if att.is_enhanced_bearer(bearer) else bearer
+        if self.device.connections.get(connection.handle) is not connection:
+            logger.debug('CCCD write on a closed connection, ignored')
+            return
+
         cccds = self.subscribers.setdefault(bearer, {})
         cccds[characteristic.handle] = value
         logger.debug(f'CCCDs: {cccds}')
